@@ -299,13 +299,32 @@ func waitFor(cond func() bool) bool {
 // (a) sequentialised schedules, compared with the model
 // ---------------------------------------------------------------------------------------------
 
-func plSequential(ep int, seed uint64, tier string) (res plResult) {
+// plSequential runs one sequentialised episode. With script == nil the schedule is drawn from the seed; otherwise
+// script holds the op lines of a recorded episode (`reset pl=… kinds…`, `act …`, anything else is ignored) and the
+// same actions are replayed on the real pipe.
+func plSequential(ep int, seed uint64, tier string, script []string) (res plResult) {
 	rng := rand.New(rand.NewPCG(seed, 0x51ed))
 	pipelined := rng.IntN(2) == 0
 	n := 2 + rng.IntN(3)
 	kinds := make([]string, n)
 	for i := range kinds {
 		kinds[i] = []string{"bg", "bg", "cn", "cn", "dl"}[rng.IntN(5)]
+	}
+	var scripted []string
+	if script != nil {
+		ws := strings.Fields(script[0])
+		if len(ws) < 2 || ws[0] != "reset" {
+			res.fail("pipelife:replay", script[0], "an episode must start with a reset line")
+			return
+		}
+		pipelined = ws[1] == "pl=1"
+		kinds = ws[2:]
+		n = len(kinds)
+		for _, l := range script[1:] {
+			if strings.HasPrefix(l, "act ") {
+				scripted = append(scripted, strings.TrimPrefix(l, "act "))
+			}
+		}
 	}
 	srv := NewServer(seed)
 	gate := &plGate{}
@@ -329,7 +348,7 @@ func plSequential(ep int, seed uint64, tier string) (res plResult) {
 	var fifo []*plCall // calls that reached the server's command stream or the queue, oldest first
 	killed, closed := false, false
 	hang := func(op, what string) {
-		res.fail("pipelife:hang:"+strings.Fields(op)[1], op, what+fmt.Sprintf(" (state=%d waits=%d bg=%v)", pk.State(), pk.Waits(), pk.Bg()))
+		res.fail("pipelife:hang:"+strings.Fields(op + " end")[1], op, what+fmt.Sprintf(" (state=%d waits=%d bg=%v)", pk.State(), pk.Waits(), pk.Bg()))
 	}
 	snapshot := func() string {
 		var parts []string
@@ -355,22 +374,6 @@ func plSequential(ep int, seed uint64, tier string) (res plResult) {
 	}
 	alive := func() bool { return vp.Error() == nil && !killed && !closed }
 	outstanding := func() int { return len(fifo) - released }
-	// settle: the oldest outstanding command must have reached the server while the connection lives
-	settle := func(op string) bool {
-		if (killed || closed || vp.Error() != nil) && pk.Bg() { // the connection is dead or an error is latched, and the background goroutine exists: the teardown completes
-			if !waitFor(func() bool { return pk.State() == 4 && pk.Waits() == 0 }) {
-				hang(op, "the teardown did not complete after the error latch")
-				return false
-			}
-		}
-		if alive() && outstanding() > 0 {
-			if !waitFor(func() bool { return len(heldSeen(srv)) > released || vp.Error() != nil }) {
-				hang(op, "the oldest queued command never reached the server")
-				return false
-			}
-		}
-		return true
-	}
 	allReturned := func(op string) bool {
 		for _, c := range pending() {
 			c := c
@@ -385,6 +388,24 @@ func plSequential(ep int, seed uint64, tier string) (res plResult) {
 		if pk.Bg() {
 			if !waitFor(func() bool { return pk.State() == 4 && pk.Waits() == 0 }) {
 				hang(op, "the background goroutine did not reach state 4 with waits 0")
+				return false
+			}
+			// waits == 0: every caller has passed its decrement and is about to return; the snapshot needs the
+			// return itself (the caller's goroutine may not have been scheduled yet)
+			return allReturned(op)
+		}
+		return true
+	}
+	// settle: the oldest outstanding command must have reached the server while the connection lives
+	settle := func(op string) bool {
+		if (killed || closed || vp.Error() != nil) && pk.Bg() { // the connection is dead or an error is latched, and the background goroutine exists: the teardown completes
+			if !torn(op) {
+				return false
+			}
+		}
+		if alive() && outstanding() > 0 {
+			if !waitFor(func() bool { return len(heldSeen(srv)) > released || vp.Error() != nil }) {
+				hang(op, "the oldest queued command never reached the server")
 				return false
 			}
 		}
@@ -434,7 +455,13 @@ func plSequential(ep int, seed uint64, tier string) (res plResult) {
 	if tier == "thorough" {
 		steps += 3
 	}
+	if script != nil {
+		steps = len(scripted)
+	}
 	for k := 0; k < steps+2; k++ {
+		if script != nil && k >= len(scripted) {
+			break
+		}
 		// enabled actions at this quiescent point
 		var acts []string
 		if next < n && k < steps {
@@ -465,10 +492,40 @@ func plSequential(ep int, seed uint64, tier string) (res plResult) {
 				break
 			}
 		}
-		if len(acts) == 0 {
+		if len(acts) == 0 && script == nil {
 			continue
 		}
-		a := acts[rng.IntN(len(acts))]
+		a := ""
+		if script == nil {
+			a = acts[rng.IntN(len(acts))]
+		} else {
+			// replay: the recorded action, if it is possible at this point of the real run
+			ws := strings.Fields(scripted[k])
+			switch {
+			case len(ws) == 2 && (ws[0] == "call" || ws[0] == "calldone" || ws[0] == "calldl") && next < n && ws[1] == fmt.Sprint(next) &&
+				(ws[0] != "calldone" || kinds[next] == "cn") && (ws[0] == "calldl") == (kinds[next] == "dl"):
+				a = ws[0]
+				if a == "calldl" {
+					a = "call"
+				}
+			case len(ws) == 2 && ws[0] == "cancel":
+				for _, c := range pending() {
+					if c.kind == "cn" && fmt.Sprint(c.id) == ws[1] {
+						a = scripted[k]
+					}
+				}
+			case len(ws) == 1 && ws[0] == "release" && alive() && outstanding() > 0:
+				a = "release"
+			case len(ws) == 1 && ws[0] == "kill" && !killed && !closed:
+				a = "kill"
+			case len(ws) == 1 && ws[0] == "close" && !closed:
+				a = "close"
+			}
+			if a == "" {
+				res.emit("act "+scripted[k], "not-enabled-on-the-real-pipe")
+				return
+			}
+		}
 		op := "act " + a
 		okStep := true
 		switch {
@@ -543,7 +600,12 @@ func plSequential(ep int, seed uint64, tier string) (res plResult) {
 			return
 		}
 	}
-	torn("end")
+	triggered := killed || closed || vp.Error() != nil
+	if triggered {
+		torn("end")
+	} else {
+		gate.openAll() // a replayed prefix of an episode: let the pending calls finish, nothing to compare afterwards
+	}
 	errc := "none"
 	if e := vp.Error(); e != nil {
 		errc = "transport"
@@ -552,7 +614,9 @@ func plSequential(ep int, seed uint64, tier string) (res plResult) {
 		}
 	}
 	res.emit("end", fmt.Sprintf("state=%d waits=%d err=%s", pk.State(), pk.Waits(), errc))
-	plJudge(&res, srv, calls, pk, true)
+	if triggered {
+		plJudge(&res, srv, calls, pk, true)
+	}
 	return
 }
 
@@ -955,7 +1019,7 @@ func runPipeLife(c *Ctx) {
 			if j.conc {
 				results[i] = plConcurrent(j.ep, j.seed, c.Tier)
 			} else {
-				results[i] = plSequential(j.ep, j.seed, c.Tier)
+				results[i] = plSequential(j.ep, j.seed, c.Tier, nil)
 			}
 			if d := time.Since(t0); d > 5*time.Second && plDebug {
 				fmt.Fprintf(os.Stderr, "slow episode %d conc=%v %v\n", j.ep, j.conc, d)
@@ -983,6 +1047,49 @@ func runPipeLife(c *Ctx) {
 	}
 }
 
+// replayPipeLife re-runs recorded episodes on the real pipe: the lines of each episode from its `reset` line on.
+// An episode with `raw` lines is the hook-driven race episode (three-party when caller 1 occurs); any other episode
+// is a sequentialised schedule whose `act` lines are repeated. Oracle lines are produced afresh by the re-run;
+// `!` lines outside an episode (concurrent episodes are not replayable step by step) are passed through.
+func replayPipeLife(c *Ctx, lines []string) {
+	rueidis.VerifYieldAfterIncrWaits = plYieldHook
+	var episodes [][]string
+	for _, l := range lines {
+		switch {
+		case strings.HasPrefix(l, "reset"):
+			episodes = append(episodes, []string{l})
+		case len(episodes) == 0:
+			c.Emit(l, "ok", true)
+		default:
+			episodes[len(episodes)-1] = append(episodes[len(episodes)-1], l)
+		}
+	}
+	for i, e := range episodes {
+		var r plResult
+		raw, withB := false, false
+		for _, l := range e {
+			if strings.HasPrefix(l, "raw") {
+				raw = true
+				withB = withB || strings.Contains(l, "enter 1")
+			}
+		}
+		if raw {
+			r = plRaceEpisode(9000+i, withB || strings.Count(e[0], "bg") >= 2)
+		} else {
+			r = plSequential(9000+i, uint64(i)+1, c.Tier, e)
+		}
+		for _, l := range r.lines {
+			c.Emit(l.op, l.ans, l.nontriv)
+		}
+		for _, h := range r.hits {
+			c.Hit(h)
+		}
+		for _, f := range r.fails {
+			c.Fail(f.Key, f.Op, f.What)
+		}
+	}
+}
+
 func init() {
-	suites["pipelife"] = suite{rule: "the real pipe (_newPipe over the tag server) driven through (a) sequentialised random schedules of call / call with a done context / call with a deadline / server reply / cancel / connection kill / Close, every action followed by an event-driven wait for quiescence, compared line by line (state and per-call outcome classes after every action, final state/waits/latched error) with the interleaving model Rv/Model/PipeLife.lean run on the same schedule, and (b) concurrent episodes (2-5 callers x 1-3 Do/DoMulti calls with random cancellation before or during the call, held replies, and a kill / Close / server-side drop at a random point) judged by oracle lines from the statements of Rv.C04.Life, and (c) the Close-vs-admission race of close_race_strands_call replayed deterministically through the scheduling point VerifYieldAfterIncrWaits (A parked between incrWaits and its state load, B queued, Close stores 2 and queues its PING, A continues; also without B), compared step by step with the model and judged by a `!race` line: everybody returns, state 4, waits 0: every call returned; with its own reply, a transport error, ErrClosing or its own context error; a done context at admission returns the context error and puts nothing on the wire; after the teardown the pipe is in state 4 with waits 0; non-trivial = every line", run: runPipeLife}
+	suites["pipelife"] = suite{replay: replayPipeLife, rule: "the real pipe (_newPipe over the tag server) driven through (a) sequentialised random schedules of call / call with a done context / call with a deadline / server reply / cancel / connection kill / Close, every action followed by an event-driven wait for quiescence, compared line by line (state and per-call outcome classes after every action, final state/waits/latched error) with the interleaving model Rv/Model/PipeLife.lean run on the same schedule, and (b) concurrent episodes (2-5 callers x 1-3 Do/DoMulti calls with random cancellation before or during the call, held replies, and a kill / Close / server-side drop at a random point) judged by oracle lines from the statements of Rv.C04.Life, and (c) the Close-vs-admission race of close_race_strands_call replayed deterministically through the scheduling point VerifYieldAfterIncrWaits (A parked between incrWaits and its state load, B queued, Close stores 2 and queues its PING, A continues; also without B), compared step by step with the model and judged by a `!race` line: everybody returns, state 4, waits 0: every call returned; with its own reply, a transport error, ErrClosing or its own context error; a done context at admission returns the context error and puts nothing on the wire; after the teardown the pipe is in state 4 with waits 0; non-trivial = every line", run: runPipeLife}
 }
